@@ -379,6 +379,10 @@ def features(d=None):
         lambda v, s: Req('GET', '/allocation_candidates?resources='
                          'VCPU:1,CUSTOM_A:1', s),
         jhas(lambda j: n_reqs(j) == 1), jhas(lambda j: n_reqs(j) == 0), 10)
+    add('1.29 nested candidates: two children, root supplies nothing', 29,
+        lambda v, s: Req('GET', '/allocation_candidates?resources='
+                         'CUSTOM_A:1,SRIOV_NET_VF:1', s),
+        jhas(lambda j: n_reqs(j) == 1), jhas(lambda j: n_reqs(j) == 0), 10)
     add('1.29 parent/root in provider summaries', 29,
         lambda v, s: Req('GET', ac, s),
         summaries(lambda ps: ps[R]['root_provider_uuid'] == R and
@@ -496,6 +500,11 @@ def run_shard(spec, res):
         rr = svc.client.call('POST', '/resource_providers',
                              {'name': 'sibling', 'uuid': SIB,
                               'parent_provider_uuid': R})
+        assert rr.status == 200, rr.status
+        rr = svc.client.call(
+            'PUT', '/resource_providers/%s/inventories' % SIB,
+            {'resource_provider_generation': 0,
+             'inventories': {'SRIOV_NET_VF': {'total': 8}}})
         assert rr.status == 200, rr.status
         state = spec.get('state', 0)
         if state == 1:
